@@ -348,10 +348,13 @@ def run(ck):
     for c in cases:
         judge(ck, pds, devmap, c, stats)
     ck.cov["distinct_nontrivial"] = stats["nontrivial"]
-    ck.cov["exhaustive"] = True
+    # TLC's enumeration of (descriptor, kind, list) is complete at the bound, but a two-mutator list is run
+    # in one context of its kind only, so the product with the contexts is not exhausted
+    ck.cov["exhaustive"] = False
     ck.cov["rule"] = ("TLC BFS: every parent descriptor x spawn kind x mutator list of length <= MaxLen (one state each), "
-                      "each run in every isolating context of its kind (sub, cmdsub, procin, procout, pipefirst, pipelast, bg, "
-                      "Runner.Subshell API); evaluation = one program run in the real interpreter with parent dumps before/after "
+                      "lists with <= 1 mutator run in every isolating context of their kind (sub, cmdsub, pipelast / procin, procout, "
+                      "pipefirst, bg, Runner.Subshell API), longer lists in one of them (rotating with index+seed); thorough adds "
+                      "simulated 3-mutator behaviours; evaluation = one program run in the real interpreter with parent dumps before/after "
                       "and child dump compared; non-trivial = the spec's child view differs from the parent view and the "
                       "interpreter's child dump equals the spec's")
     ck.notes.update({"programs_interp": len(cases), "programs_bash": stats["bash"],
